@@ -4,4 +4,13 @@ import os, sys
 sys.path.insert(0, os.path.dirname(os.path.abspath(__file__)))
 import gen_c02
 here = os.path.dirname(os.path.abspath(__file__))
-gen_c02.generate(os.path.join(here, "src", "gen_c02.rs"), 5)
+# quick tier only needs the skeletons up to length 3 (keeps the crate small and the build fast)
+maxlen = 5 if os.environ.get("VERIF_GEN_TIER", "thorough") == "thorough" else 3
+target = os.path.join(here, "src", "gen_c02.rs")
+tmp = target + ".tmp"
+gen_c02.generate(tmp, maxlen)
+# only touch the file when its content changes (avoids needless rebuilds)
+if not os.path.exists(target) or open(target).read() != open(tmp).read():
+    os.replace(tmp, target)
+else:
+    os.remove(tmp)
